@@ -50,6 +50,245 @@ class AnalysisError(Exception):
 # ---------------------------------------------------------------------------
 
 
+def _inline_context_managers(tree: ast.Module) -> int:
+    """`with C(args): BODY` where C is a class of the module whose __init__ only stores its arguments, whose __enter__ is a few
+    statements and whose __exit__ does nothing when there was no exception is rewritten into the equivalent
+        <enter statements>; try: BODY; except BaseException as error: <exit statements, `return <false>` -> raise, `return True` -> pass>
+    so that the exception-handling rules see the handler where they look for it."""
+    import copy
+
+    classes = {c.name: c for c in tree.body if isinstance(c, ast.ClassDef)}
+    models = {}
+    for name, c in classes.items():
+        meth = {m.name: m for m in c.body if isinstance(m, ast.FunctionDef)}
+        if not {"__init__", "__enter__", "__exit__"} <= set(meth):
+            continue
+        init, enter, exit_ = meth["__init__"], meth["__enter__"], meth["__exit__"]
+        strip = lambda b: [s_ for s_ in b if not (isinstance(s_, ast.Expr) and isinstance(s_.value, ast.Constant))]
+        attrs, ok = {}, True
+        for s_ in strip(init.body):
+            if isinstance(s_, ast.Assign) and len(s_.targets) == 1 and isinstance(s_.targets[0], ast.Attribute) \
+                    and isinstance(s_.targets[0].value, ast.Name) and s_.targets[0].value.id == "self" and isinstance(s_.value, ast.Name):
+                attrs[s_.targets[0].attr] = s_.value.id
+            else:
+                ok = False
+        eb = strip(enter.body)
+        if eb and isinstance(eb[-1], ast.Return) and (eb[-1].value is None or (isinstance(eb[-1].value, ast.Constant) and eb[-1].value.value is None)):
+            eb = eb[:-1]
+        if not ok or any(isinstance(x, (ast.Return, ast.Yield)) for s_ in eb for x in ast.walk(s_)) or len(exit_.args.args) != 4:
+            continue
+        models[name] = (init, attrs, eb, exit_, strip(exit_.body))
+    if not models:
+        return 0
+
+    def specialise(stmts, err, exceptional):
+        """exit body for the exceptional (error is not None) or the normal case; None if not understood"""
+        def const_test(t):
+            txt = norm(t)
+            if txt in (f"{err} is None", f"{exit_type} is None"):
+                return not exceptional
+            if txt in (f"{err} is not None", f"{exit_type} is not None"):
+                return exceptional
+            return None
+        out = []
+        for s_ in stmts:
+            if isinstance(s_, ast.If):
+                v = const_test(s_.test)
+                if v is not None:
+                    sub = specialise(s_.body if v else s_.orelse, err, exceptional)
+                    if sub is None:
+                        return None
+                    out += sub
+                    if sub and isinstance(sub[-1], (ast.Raise, ast.Pass)) and getattr(sub[-1], "_ends", False):
+                        return out
+                    continue
+                b1, b2 = specialise(s_.body, err, exceptional), specialise(s_.orelse, err, exceptional)
+                if b1 is None or b2 is None:
+                    return None
+                n_ = copy.copy(s_)
+                n_.body, n_.orelse = b1 or [ast.Pass()], b2
+                out.append(n_)
+                continue
+            if isinstance(s_, ast.Return):
+                truthy = isinstance(s_.value, ast.Constant) and bool(s_.value.value)
+                falsy = s_.value is None or (isinstance(s_.value, ast.Constant) and not s_.value.value)
+                if not (truthy or falsy):
+                    return None
+                end = ast.copy_location(ast.Pass() if (truthy or not exceptional) else ast.Raise(exc=None, cause=None), s_)
+                end._ends = True
+                out.append(end)
+                return out
+            out.append(s_)
+        return out
+
+    count = 0
+    for holder in [n for n in ast.walk(tree)]:
+        for field in ("body", "orelse", "finalbody"):
+            blk = getattr(holder, field, None)
+            if not isinstance(blk, list):
+                continue
+            for i, st in enumerate(list(blk)):
+                if not (isinstance(st, ast.With) and len(st.items) == 1 and st.items[0].optional_vars is None
+                        and isinstance(st.items[0].context_expr, ast.Call) and isinstance(st.items[0].context_expr.func, ast.Name)
+                        and st.items[0].context_expr.func.id in models):
+                    continue
+                call = st.items[0].context_expr
+                init, attrs, eb, exit_, xb = models[call.func.id]
+                params = [a_.arg for a_ in init.args.args[1:]]
+                if call.keywords and any(k_.arg is None for k_ in call.keywords) or len(call.args) > len(params):
+                    continue
+                given = dict(zip(params, call.args))
+                for k_ in call.keywords:
+                    given[k_.arg] = k_.value
+                if set(given) != set(params):
+                    continue
+                exit_type, err = exit_.args.args[1].arg, exit_.args.args[2].arg
+                tb = exit_.args.args[3].arg
+                if any(isinstance(x, ast.Name) and x.id in (tb, exit_type) and norm(getattr(x, "_parent", x)) not in (f"{exit_type} is None", f"{exit_type} is not None")
+                       for s_ in xb for x in ast.walk(s_)):
+                    continue
+                exc_body = specialise(copy.deepcopy(xb), err, True)
+                norm_body = specialise(copy.deepcopy(xb), err, False)
+                if exc_body is None or norm_body is None or any(not isinstance(s_, ast.Pass) for s_ in norm_body):
+                    continue
+                if not (exc_body and isinstance(exc_body[-1], (ast.Raise, ast.Pass)) and getattr(exc_body[-1], "_ends", False)):
+                    exc_body.append(ast.copy_location(ast.Raise(exc=None, cause=None), st))  # falling off __exit__ returns None: propagate
+
+                class Sub(ast.NodeTransformer):
+                    def visit_Attribute(self, node):
+                        self.generic_visit(node)
+                        if isinstance(node.value, ast.Name) and node.value.id == "self" and node.attr in attrs:
+                            return copy.deepcopy(given[attrs[node.attr]])
+                        return node
+                enter_stmts = [Sub().visit(copy.deepcopy(s_)) for s_ in eb]
+                exc_body = [Sub().visit(s_) for s_ in exc_body]
+                tr = ast.Try(body=st.body, handlers=[ast.ExceptHandler(type=ast.Name(id="BaseException", ctx=ast.Load()), name=err, body=exc_body)],
+                             orelse=[], finalbody=[])
+                ast.copy_location(tr, st)
+                new = enter_stmts + [tr]
+                for n_ in new:
+                    for x in ast.walk(n_):
+                        if not hasattr(x, "lineno") and isinstance(x, (ast.stmt, ast.expr, ast.excepthandler)):
+                            ast.copy_location(x, st)
+                    ast.fix_missing_locations(n_)
+                j = blk.index(st)
+                blk[j:j + 1] = new
+                count += 1
+    if count:
+        for node in ast.walk(tree):
+            for child in ast.iter_child_nodes(node):
+                child._parent = node  # type: ignore[attr-defined]
+    return count
+
+
+def _inline_generators(tree: ast.Module) -> int:
+    """`for T in g(args): BODY` with g a module-level generator whose single `yield E` is the last statement of its innermost loop
+    is the same as g's own statements with `yield E` replaced by `T = E; BODY` (BODY has no break, g's locals are renamed).  The
+    loop nest then sits where the rules look for it.  Returns the number of loops rewritten."""
+    import copy
+
+    gens = {}
+    for fn in tree.body:
+        if not isinstance(fn, ast.FunctionDef) or fn.decorator_list or fn.args.vararg or fn.args.kwarg or fn.args.kwonlyargs:
+            continue
+        ys = [n for n in ast.walk(fn) if isinstance(n, (ast.Yield, ast.YieldFrom))]
+        if len(ys) != 1 or isinstance(ys[0], ast.YieldFrom) or ys[0].value is None:
+            continue
+        if any(isinstance(n, ast.Return) for n in ast.walk(fn)):
+            continue
+        # the yield must be an expression statement, last in the body of its innermost loop, loops nested directly
+        body = [s_ for s_ in fn.body if not (isinstance(s_, ast.Expr) and isinstance(s_.value, ast.Constant))]
+        ok, cur = True, body
+        while True:
+            loops = [s_ for s_ in cur if isinstance(s_, (ast.For, ast.While))]
+            if len(loops) > 1 or any(isinstance(s_, (ast.Try, ast.With)) for s_ in cur):
+                ok = False
+                break
+            if not loops:
+                ok = bool(cur) and isinstance(cur[-1], ast.Expr) and cur[-1].value is ys[0] and cur is not body
+                break
+            if loops[0] is not cur[-1] or not isinstance(loops[0], ast.For) or loops[0].orelse:
+                ok = False
+                break
+            cur = loops[0].body
+        if ok:
+            gens[fn.name] = fn
+    if not gens:
+        return 0
+    count = 0
+    for owner in [n for n in ast.walk(tree) if isinstance(n, ast.FunctionDef) and n.name not in gens]:
+        for holder in [n for n in ast.walk(owner) if hasattr(n, "body") and isinstance(getattr(n, "body"), list)]:
+            for field in ("body", "orelse"):
+                blk = getattr(holder, field, None)
+                if not isinstance(blk, list):
+                    continue
+                i = 0
+                while i < len(blk):
+                    st = blk[i]
+                    if isinstance(st, ast.For) and not st.orelse and isinstance(st.iter, ast.Call) and isinstance(st.iter.func, ast.Name) \
+                            and st.iter.func.id in gens and not any(isinstance(x, ast.Break) for b_ in st.body for x in ast.walk(b_)) \
+                            and not any(isinstance(a_, ast.Starred) for a_ in st.iter.args) and not any(k_.arg is None for k_ in st.iter.keywords):
+                        g = gens[st.iter.func.id]
+                        params = [a_.arg for a_ in g.args.args]
+                        given = dict(zip(params, st.iter.args))
+                        for k_ in st.iter.keywords:
+                            given[k_.arg] = k_.value
+                        defaults = dict(zip(params[len(params) - len(g.args.defaults):], g.args.defaults))
+                        if not all(p_ in given or p_ in defaults for p_ in params) or len(st.iter.args) > len(params):
+                            i += 1
+                            continue
+                        gbody = copy.deepcopy([s_ for s_ in g.body if not (isinstance(s_, ast.Expr) and isinstance(s_.value, ast.Constant))])
+                        local = set(params)
+                        for s_ in gbody:
+                            for n_ in ast.walk(s_):
+                                if isinstance(n_, ast.Name) and isinstance(n_.ctx, ast.Store) and not _in_comprehension(n_, s_):
+                                    local.add(n_.id)
+                        ren = {nm: f"_g_{nm}" for nm in local}
+
+                        class Ren(ast.NodeTransformer):
+                            def visit_Name(self, node):
+                                if node.id in ren:
+                                    return ast.copy_location(ast.Name(id=ren[node.id], ctx=node.ctx), node)
+                                return node
+                        gbody = [Ren().visit(s_) for s_ in gbody]
+                        # replace the yield statement
+                        def put(stmts):
+                            out = []
+                            for s_ in stmts:
+                                if isinstance(s_, ast.Expr) and isinstance(s_.value, ast.Yield):
+                                    out.append(ast.copy_location(ast.Assign(targets=[st.target], value=s_.value.value), st))
+                                    out.extend(st.body)
+                                else:
+                                    if isinstance(s_, ast.For):
+                                        s_.body = put(s_.body)
+                                    out.append(s_)
+                            return out
+                        gbody = put(gbody)
+                        binds = [ast.copy_location(ast.Assign(targets=[ast.Name(id=ren[p_], ctx=ast.Store())],
+                                                              value=given[p_] if p_ in given else copy.deepcopy(defaults[p_])), st) for p_ in params]
+                        for b_ in binds + gbody:
+                            ast.fix_missing_locations(b_)
+                        blk[i:i + 1] = binds + gbody
+                        count += 1
+                        i += len(binds) + len(gbody)
+                        continue
+                    i += 1
+    if count:
+        for node in ast.walk(tree):
+            for child in ast.iter_child_nodes(node):
+                child._parent = node  # type: ignore[attr-defined]
+    return count
+
+
+def _in_comprehension(name_node: ast.Name, root: ast.AST) -> bool:
+    for n in ast.walk(root):
+        if isinstance(n, (ast.ListComp, ast.SetComp, ast.DictComp, ast.GeneratorExp)):
+            for g in n.generators:
+                if any(x is name_node for x in ast.walk(g.target)):
+                    return True
+    return False
+
+
 def _canonical_index_parameter(tree: ast.Module) -> None:
     """The element-evaluation closures of the package have the signature `(*index)`, and the rules speak of `index`.  A closure
     or lambda nested in a function whose only parameter is a vararg with another name gets it renamed to `index` in the loaded
@@ -100,6 +339,8 @@ class Repo:
             for node in ast.walk(tree):
                 for child in ast.iter_child_nodes(node):
                     child._parent = node  # type: ignore[attr-defined]
+            _inline_generators(tree)
+            _inline_context_managers(tree)
             _canonical_index_parameter(tree)
             self.trees[name] = tree
         # every other .py in the package (not tests) is parsed too so that
